@@ -66,3 +66,23 @@ Proof.
   destruct cores_are_the_source as (A & B & _ & C & D & _). repeat split; assumption.
 Qed.
 Print Assumptions C01_cores_are_the_source.
+
+(** A core that FAILS leaves the transaction's view as it found it -- the links exactly (they test before they write),
+    the unlinks up to a null dart written over a null image.  A transactional link / unlink may therefore fail inside
+    a larger transaction whose body handles the error and commits: nothing of the failed call is published.  The 2D
+    harness runs half of the link / unlink argument pairs in that form against the model's answer for the force_ form
+    (seeded change C01-3 fuses the reads and writes of one_link_core and is caught there with a concrete history). *)
+From HC Require Import Map2.LinkFail.
+Theorem C01_failed_core_leaves_view `{Sig} : forall E c w cnt e w' cnt',
+  (forall l r, run E (one_link_core l r) c w cnt = (Failed e, w', cnt') -> w' = w) /\
+  (forall l r, run E (two_link_core l r) c w cnt = (Failed e, w', cnt') -> w' = w) /\
+  (forall l, run E (one_unlink_core l) c w cnt = (Failed e, w', cnt') -> view_same w w') /\
+  (forall l, run E (two_unlink_core l) c w cnt = (Failed e, w', cnt') -> view_same w w').
+Proof.
+  intros E c w cnt e w' cnt'. split; [|split; [|split]].
+  - intros l r. apply one_link_core_fail.
+  - intros l r. apply two_link_core_fail.
+  - intros l. apply one_unlink_core_fail.
+  - intros l. apply two_unlink_core_fail.
+Qed.
+Print Assumptions C01_failed_core_leaves_view.
